@@ -42,7 +42,8 @@ func verifQuote(buf []byte, s string) []byte {
 
 // Default sink for separate processes (mrp): one NDJSON line per event,
 // appended with a single write to the file named by VERIF_TRACE.
-// VERIF_CRASH_AT=n kills the process (SIGKILL) right after event n;
+// VERIF_CRASH_AT=n kills the process (SIGKILL) right after event n (with
+// VERIF_CRASH_GROUP set: its whole process group);
 // VERIF_SIGNAL_AT=n:sig sends the process that signal after event n.
 func init() {
 	p := os.Getenv("VERIF_TRACE")
@@ -83,6 +84,11 @@ func init() {
 		buf = append(buf, "}\n"...)
 		verifFile.Write(buf)
 		if verifCrashAt > 0 && verifSeq == verifCrashAt {
+			if os.Getenv("VERIF_CRASH_GROUP") != "" {
+				// the whole process group dies at once (kill -9 of the group, a
+				// scheduler tearing the allocation down): no job gets to say anything
+				syscall.Kill(0, syscall.SIGKILL)
+			}
 			syscall.Kill(os.Getpid(), syscall.SIGKILL)
 			select {}
 		}
